@@ -76,10 +76,11 @@ pub fn token(key: u64, writer: u64, counter: u64) -> u64 { (key << 40) | ((write
 pub fn token_key(token: u64) -> u64 { token >> 40 }
 
 pub fn computed_weight(mode: WeightMode, value: u64, with_ttl: bool) -> i64 {
-    let ttl = if with_ttl { TTL_ENTRY } else { 0 };
     match mode {
-        WeightMode::Default => DEFAULT_WEIGHT + ttl,
-        WeightMode::Custom => ((value & 0xffff_ffff) % 9) as i64 + 1 + ttl,
+        WeightMode::Default => DEFAULT_WEIGHT + if with_ttl { TTL_ENTRY } else { 0 },
+        // the custom function charges 7 for a time-to-live, not the 24 of the default one: what a request with a value is charged is
+        // whatever the configured function says
+        WeightMode::Custom => ((value & 0xffff_ffff) % 9) as i64 + 1 + if with_ttl { 7 } else { 0 },
     }
 }
 
@@ -98,6 +99,22 @@ pub fn build_cache(cfg: &SutCfg) -> (Arc<Cache>, VClock) {
     }
     if cfg.hash_mode == HashMode::Constant {
         builder = builder.key_hash_fn(Box::new(|_key: &u64| 42));
+    }
+    // every second cache of the process gets its public configuration fields (clock, cache weight, counters, queue size, the two functions)
+    // assigned AFTER build(), the builder having been given throw-away values: both ways of configuring must give the same cache
+    static BUILT: std::sync::atomic::AtomicU64 = std::sync::atomic::AtomicU64::new(0);
+    if BUILT.fetch_add(1, std::sync::atomic::Ordering::Relaxed) % 2 == 1 {
+        let mut late = ConfigBuilder::new(cfg.counters + 5, cfg.capacity, cfg.max_weight / 2 + 1000)
+            .shards(cfg.shards).command_buffer_size(cfg.cmd_buf + 3).access_pool_size(cfg.pool).access_buffer_size(cfg.buf).ttl_tick_duration(cfg.tick)
+            .clock(Box::new(VClock::at(cfg.start_ns + 777_000_000_000)))
+            .build();
+        late.clock = Box::new(clock.clone());
+        late.total_cache_weight = cfg.max_weight;
+        late.counters = cfg.counters;
+        late.command_buffer_size = cfg.cmd_buf;
+        if cfg.weight_mode == WeightMode::Custom { late.weight_calculation_fn = Box::new(|_key: &u64, value: &u64, with_ttl| computed_weight(WeightMode::Custom, *value, with_ttl)); }
+        if cfg.hash_mode == HashMode::Constant { late.key_hash_fn = Box::new(|_key: &u64| 42); }
+        return (Arc::new(CacheD::new(late)), clock);
     }
     let cache = Arc::new(CacheD::new(builder.build()));
     (cache, clock)
@@ -361,11 +378,16 @@ pub fn issue(cache: &Cache, op: &WriteOp) -> Issued {
         WriteOp::PutTtl { key, value, ttl } => cache.put_with_ttl(*key, *value, *ttl),
         WriteOp::PutWTtl { key, value, weight, ttl } => cache.put_with_weight_and_ttl(*key, *value, *weight, *ttl),
         WriteOp::Upsert { key, value, weight, ttl, remove_ttl } => {
+            // the setters of the request builder are called in varying order (derived from the value), and now and then a provisional value is
+            // set first and overridden: what is built must be the same request
             let mut builder = PutOrUpdateRequestBuilder::new(*key);
-            if let Some(value) = value { builder = builder.value(*value); }
+            let order = value.unwrap_or(*key) % 3;
+            if order == 2 { if let Some(value) = value { builder = builder.value(value ^ 0x5a5a).value(*value); } }
+            if order == 0 { if let Some(value) = value { builder = builder.value(*value); } }
             if let Some(weight) = weight { builder = builder.weight(*weight); }
             if let Some(ttl) = ttl { builder = builder.time_to_live(*ttl); }
             if *remove_ttl { builder = builder.remove_time_to_live(); }
+            if order == 1 { if let Some(value) = value { builder = builder.value(*value); } }
             cache.put_or_update(builder.build())
         }
         WriteOp::Delete { key } => cache.delete(*key),
